@@ -128,9 +128,18 @@ func genKeySel(t *rapid.T, label string) KeySel {
 // findOpts: valid and invalid System.Storage.Find option sets (interop/storage/find.go).
 var findOpts = []int64{0, 0, 1, 2, 3, 4, 8, 0x18, 0x28, 0x1c, 0x2c, 0x1a, 0x80, 0x80, 0x81, 0x82, 0x83, 0x84, 0x88, 0x98, 0xa8, 5, 6, 9, 0x10, 0x30, 0x40}
 
+// KnownHistoricLedger: see known_findings.json.
+const KnownHistoricLedger = "historic-invocation-cannot-read-ledger-transactions"
+
 func genScriptSel(t *rapid.T, roleStory int) ScriptSel {
+	kinds := []string{"kget", "kget", "kfind", "kfind", "kfind", "roles", "rolebad", "neo", "policy", "mgmt", "bundle", "ledger"}
+	if vt.Known(KnownHistoricLedger) {
+		// listed finding: a historic invocation cannot read transactions through the Ledger contract; the kind is
+		// replaced (the draw is kept so that cases stay comparable)
+		kinds[len(kinds)-1] = "policy"
+	}
 	s := ScriptSel{
-		Kind:  rapid.SampledFrom([]string{"kget", "kget", "kfind", "kfind", "kfind", "roles", "rolebad", "neo", "policy", "mgmt", "bundle"}).Draw(t, "skind"),
+		Kind:  rapid.SampledFrom(kinds).Draw(t, "skind"),
 		C:     rapid.IntRange(0, 4).Draw(t, "sc"),
 		Party: rapid.IntRange(0, ck.NParties-1).Draw(t, "sparty"),
 	}
@@ -714,6 +723,17 @@ func buildScript(b *ck.Builder, sn *snap, s ScriptSel, p2psig bool) []byte {
 		call(pol, "isBlocked", party(s.Party))
 		for _, a := range []int64{int64(transaction.HighPriority), int64(transaction.NotValidBeforeT), int64(transaction.ConflictsT), int64(transaction.NotaryAssistedT)} {
 			call(pol, "getAttributeFee", a)
+		}
+	case "ledger": // what the chain itself answers about its blocks and transactions at that height
+		lg := nativehashes.LedgerContract
+		call(lg, "currentIndex")
+		call(lg, "currentHash")
+		call(lg, "getBlock", int64(sn.h))
+		if len(b.TxHashes) > 0 {
+			th := b.TxHashes[mod(s.C*7+s.Party, len(b.TxHashes))]
+			call(lg, "getTransactionHeight", th)
+			call(lg, "getTransactionVMState", th)
+			call(lg, "getTransaction", th)
 		}
 	case "mgmt":
 		mg := nativehashes.ContractManagement
